@@ -189,21 +189,24 @@ ConsumeLine ==
                  /\ viol' = viol \cup AfterFailure
                        \cup Tag(ended, "C10-send-after-end-of-device")
                        \cup Tag(inTab /\ ~(must.on /\ must.kind = "releaseall"), "C12-send-in-tablet-mode")
-                       \cup (IF ~must.on
-                             THEN (IF must.kind = "emptychord" /\ r.evs = <<>> THEN {}
-                                   ELSE IF prevTimeout THEN {"C11-chord-at-wrong-time"} ELSE IF must.on2 THEN {} ELSE {"C10-unexpected-send"})
+                       \* an empty batch writes no event: neutral for C10/C11 (it neither is nor replaces an owed write); the
+                       \* "nothing at all is written" clauses of C12 and C20 above and below still apply to it
+                       \cup (IF r.evs = <<>> THEN {}
+                             ELSE IF ~must.on
+                             THEN (IF prevTimeout THEN {"C11-chord-at-wrong-time"} ELSE IF must.on2 THEN {} ELSE {"C10-unexpected-send"})
                              ELSE IF r.evs = must.evs THEN {}
                              ELSE IF must.kind = "chord" THEN {IF chordKeyHeld THEN "KNOWN-D4-C11-chord-touches-held-key" ELSE "C11-chord-content"}
                              ELSE {"C10-wrong-payload-" \o must.kind})
-                       \cup Tag(must.kind = "step" /\ afterTab /\ r.evs # must.evs2, "C12-not-fresh-after-tablet-mode")
+                       \cup Tag(r.evs # <<>> /\ must.kind = "step" /\ afterTab /\ r.evs # must.evs2, "C12-not-fresh-after-tablet-mode")
                        \cup Tag(isChord /\ HeldAfter(held, r.evs) # held, "C11-chord-not-transient")
                        \* C12: a repeat chord although a tablet-mode switch was read since the last repeat was armed ("resumes as from a fresh start")
-                       \cup Tag(tabCleared /\ prevTimeout /\ ~must.on /\ ~(must.kind = "emptychord" /\ r.evs = <<>>), "C12-repeat-survives-tablet-switch")
+                       \cup Tag(r.evs # <<>> /\ tabCleared /\ prevTimeout /\ ~must.on, "C12-repeat-survives-tablet-switch")
                  /\ BumpIf(isChord, 3) /\ BumpIf(must.on /\ must.kind = "step", 4) /\ BumpIf(must.on /\ must.kind = "releaseall", 5)
                  /\ held' = (IF isErr THEN held ELSE HeldAfter(held, r.evs))
-                 /\ must' = NoMust /\ pend' = (IF pend.on /\ pend.open THEN [pend EXCEPT !.lo = r.tout + pend.delay * 1000] ELSE pend)
+                 /\ must' = (IF r.evs = <<>> THEN must ELSE NoMust)
+                 /\ pend' = (IF pend.on /\ pend.open THEN [pend EXCEPT !.lo = r.tout + pend.delay * 1000] ELSE pend)
                  /\ kq' = kq1 /\ tq' = tq1 /\ kN' = kN1 /\ tN' = tN1
-                 /\ prevTimeout' = FALSE
+                 /\ prevTimeout' = (prevTimeout /\ r.evs = <<>>)
                  /\ UNCHANGED <<ended, inTab, afterTab, tabCleared, onJust>>
 
 Flush == /\ l = N + 1 /\ ~flushed /\ flushed' = TRUE /\ Report(cur, viol)
